@@ -259,6 +259,8 @@ def judge(prog, d, expected, timeout=20):
 # minimisation and keys
 # ---------------------------------------------------------------------------
 
+MAX_MINIMISED = 2        # failing use statements minimised per program (the others are counted)
+
 GENERIC = {"obj", "fn0", "fn1", "fn2", "fn3", "variadic", "arg-multi-tok", "rescan-nested", "va-single",
            "fn-empty-result"}
 
@@ -459,16 +461,29 @@ class Minimizer(object):
                     return self.simplify(cand)
         return prog
 
+    def done(self, prog):
+        """the witness already has exactly the feature set of a listed finding: shrinking further cannot change
+        the key it is reported under"""
+        _e, feats = _ref(prog)
+        if feats is None:
+            return False
+        sal = salient(feats)
+        return any(sig == sal for _c, sig in known_signatures())
+
     def run(self, prog):
         uses = {i for i, u in enumerate(prog["units"]) if u["k"] == "use"}
         keep = uses if len(uses) == 1 else set()
         prog = self.units(prog, keep)
         for _round in range(3):
             before = json.dumps(prog)
-            for ui in range(len(prog["units"])):
-                prog = self.shrink_text(prog, ui)
-            prog = self.normalise(prog)
-            prog = self.simplify(prog)
+            for step in (self.simplify, self.normalise, None):
+                if self.done(prog):
+                    return prog
+                if step is not None:
+                    prog = step(prog)
+                else:
+                    for ui in range(len(prog["units"])):
+                        prog = self.shrink_text(prog, ui)
             uses = [i for i, u in enumerate(prog["units"]) if u["k"] == "use"]
             prog = self.units(prog, set(uses) if len(uses) == 1 else set())
             if json.dumps(prog) == before:
@@ -585,9 +600,9 @@ def run_case(ctx, case):
         if os.environ.get("C08_DEBUG"):
             res.sample = {"disagree": prog, "gcc": show(gtoks), "model": show(expected)}
         return res
-    verdict, o = judge(prog, d, expected)
+    verdict, o = judge(prog, d, expected, timeout=8)
     if verdict == "timeout":
-        verdict, o = judge(prog, d, expected, timeout=40)
+        verdict, o = judge(prog, d, expected, timeout=24)
         if verdict == "timeout":
             res.inconclusive = "watchdog"
             return res
@@ -604,8 +619,33 @@ def run_case(ctx, case):
     if verdict is None:
         return res
     res.count("programs_mismatching", 1)
+    if case.get("minimal"):
+        # stored witness of a listed finding: already minimal, key it as it is
+        _report(res, prog, feats, gtoks, verdict, o)
+        return res
     _analyse(res, prog, d, verdict, o, expected)
     return res
+
+
+def _report(res, small, feats, gt, v2, o2, seen=None):
+    if v2 == "died":
+        how = o2.r.how().replace(":", "-")
+        where = "" if "stack-overflow" in how else "@" + ("/".join(o2.r.frames(2)) or "?").replace(":", ".")
+        key = make_key("died-%s%s" % (how, where), feats)
+    elif v2 == "error-exit":
+        key = make_key("error-exit", feats)
+    elif v2 == "runaway":
+        key = make_key("runaway-expansion", feats)
+    else:
+        key = make_key("token-mismatch", feats)
+    if seen is not None:
+        if key in seen:
+            return
+        seen.add(key)
+    res.violation(key,
+                  witness={"defs": mg.prog_defs(small), "file": mg.prog_text(small)},
+                  expected=show(gt), got=show(o2.tokens) if v2 != "died" else o2.r.how(),
+                  features="+".join(sorted(salient(feats))), diff=diff_kind(gt, o2.tokens), prog=small)
 
 
 def _analyse(res, prog, d, verdict, o, expected):
@@ -627,12 +667,12 @@ def _analyse(res, prog, d, verdict, o, expected):
     seen = set()
     done = 0
     for sub, v in failing:
-        if done >= 2:
+        if done >= MAX_MINIMISED:
             res.count("mismatches_not_minimised", 1)
             continue
         done += 1
         _e, f0 = _ref(sub)
-        mz = Minimizer(d, v, f0 or (), budget=40 if v in ("died", "runaway") else 220)
+        mz = Minimizer(d, v, f0 or (), budget=120 if v in ("died", "runaway") else 400)
         if not mz.fails(sub):
             # not reproducible in isolation (should not happen)
             res.count("unreproducible", 1)
@@ -654,23 +694,7 @@ def _analyse(res, prog, d, verdict, o, expected):
         if v2 is None or v2 == "timeout":
             res.count("witness_not_confirmed", 1)
             continue
-        if v2 == "died":
-            how = o2.r.how().replace(":", "-")
-            where = "" if "stack-overflow" in how else "@" + ("/".join(o2.r.frames(2)) or "?").replace(":", ".")
-            key = make_key("died-%s%s" % (how, where), feats)
-        elif v2 == "error-exit":
-            key = make_key("error-exit", feats)
-        elif v2 == "runaway":
-            key = make_key("runaway-expansion", feats)
-        else:
-            key = make_key("token-mismatch", feats)
-        if key in seen:
-            continue
-        seen.add(key)
-        res.violation(key,
-                      witness={"defs": mg.prog_defs(small), "file": mg.prog_text(small)},
-                      expected=show(gt), got=show(o2.tokens) if v2 != "died" else o2.r.how(),
-                      diff=diff_kind(gt, o2.tokens), prog=small)
+        _report(res, small, feats, gt, v2, o2, seen)
 
 
 # ---------------------------------------------------------------------------
